@@ -859,7 +859,7 @@ func runBig(h *verifx.H, root string, ci int, r *verifx.Rng, buf []byte) {
 		ln := int(consts.MaxChunkSize) + r.Range(0, 1)
 		h.Op("toobig %d", ln)
 		_, err := d.PutBucket(0, 7, buf[:ln])
-		files := listDir(dir + "/0")
+		files := listStat(dir + "/0")
 		h.Obs("toobig=%v", err != nil)
 		if (err != nil) != (ln > int(consts.MaxChunkSize)) {
 			h.Viol("big-chunk-limit", "put of %d bytes: err=%v", ln, err)
@@ -881,7 +881,7 @@ func runBig(h *verifx.H, root string, ci int, r *verifx.Rng, buf []byte) {
 	h.Op("sizerot %d %d", a+H, b)
 	id2, err := d.PutBucket(0, 2, buf[a:a+b])
 	must(err)
-	files := listDir(dir + "/0")
+	files := listStat(dir + "/0")
 	h.Obs("sizerot rot=%v", len(files) == 2)
 	h.Stat(fmt.Sprintf("big.delta%+d", delta), 1)
 	var sc []byte
